@@ -484,12 +484,18 @@ def role_rule(ctx, P):
     nguard = 0
     for s in paths.stores(f):
         head, idx, tail = split_indices(s["path"])
+        sub = False
+        if head not in ("d2p->ldiph_lc", "d2p->rssid"):
+            # through a local pointer to the cell: compare the resolved forms
+            sp = re.sub(r"^\(&(.*)\)->", r"\1.", s["spath"])
+            head, idx, tail = split_indices(sp)
+            sub = True
         if head not in ("d2p->ldiph_lc", "d2p->rssid"):
             continue
         table = head.split("->")[-1]
         fam = idx[:2]
-        def guard(fn, cc, pol, head=head, fam=fam):
-            txt = fn.canon(cc, subst=False)
+        def guard(fn, cc, pol, head=head, fam=fam, sub=sub):
+            txt = fn.canon(cc, subst=sub)
             k0 = txt.find(head + "[")
             if k0 < 0 or not pol:
                 return False
